@@ -57,13 +57,32 @@ func ensureOverlay() string {
 // build compiles the worker test binary from /repo's current working tree.
 func build(tag string, race bool) (string, string) {
 	ov := ensureOverlay()
+	// VERIF_TAG keeps concurrent invocations for one property from sharing a binary name
+	tag += os.Getenv("VERIF_TAG")
 	name := "drivers." + tag + ".test"
 	if race {
 		name = "drivers." + tag + ".race.test"
 	}
 	bin := filepath.Join(verifDir, "build", name)
+	// VERIF_REPO (development aid, never set by a registered command): build against
+	// another checkout of metacontroller than /repo, e.g. a scratch worktree that
+	// carries a seeded change, through an alternative go.mod
+	modfile := ""
+	if alt := os.Getenv("VERIF_REPO"); alt != "" {
+		b, err := os.ReadFile(filepath.Join(verifDir, "go.mod"))
+		if err != nil {
+			die2("cannot read go.mod: %v", err)
+		}
+		modfile = filepath.Join(verifDir, "build", "go."+tag+".mod")
+		os.WriteFile(modfile, bytes.ReplaceAll(b, []byte("=> /repo"), []byte("=> "+alt)), 0o644)
+		sum, _ := os.ReadFile(filepath.Join(verifDir, "go.sum"))
+		os.WriteFile(strings.TrimSuffix(modfile, ".mod")+".sum", sum, 0o644)
+	}
 	try := func(tags string) ([]byte, error) {
 		args := []string{"test", "-c", "-o", bin, "-overlay", ov, "-ldflags=-checklinkname=0"}
+		if modfile != "" {
+			args = append(args, "-modfile", modfile)
+		}
 		if tags != "" {
 			args = append(args, "-tags", tags)
 		}
